@@ -715,17 +715,19 @@ ADV = [0.75, 3.0]
 COSTS = [0, 1, 2, 5, -1]
 
 
-def small_space(nkeys):
-    """-> list of (family, cfg, ops)"""
+def small_space(nkeys, deep=False):
+    """-> list of (family, cfg, ops). deep: one more capacity, one more byte cap and cost."""
     keys = ["a", "b", "c", "d"][:nkeys]
     out = []
-    for me in (0, 1, 2, 3):
-        for mb in (0, 3, 5):
-            ops = [["put", k, f"{k}{c}", c] for k in keys for c in COSTS] + [["get", k] for k in keys] + [["clear"]]
+    caps = (0, 1, 2, 3, 4) if deep else (0, 1, 2, 3)
+    costs = COSTS + [3] if deep else COSTS
+    for me in caps:
+        for mb in ((0, 3, 5, 8) if deep else (0, 3, 5)):
+            ops = [["put", k, f"{k}{c}", c] for k in keys for c in costs] + [["get", k] for k in keys] + [["clear"]]
             out.append(("lrubytes", {"me": me, "mb": mb, "keys": keys}, ops))
-    for mx in (0, 1, 2, 3):
+    for mx in caps:
         for ttl in (0, 2):
-            adv = [["adv", d] for d in ADV] if ttl else []
+            adv = [["adv", d] for d in ADV]  # also with ttl == 0: the clock must then have no effect
             ops = [["set", k, v] for k in keys for v in (0, 1)] + [["get", k] for k in keys] + adv + [["invalidate"]]
             out.append(("nscache", {"max": mx, "ttl": ttl, "keys": keys}, ops))
             ops = ([["set", k, v] for k in keys for v in (0, 1)] + [["put", keys[0], 2]] + [["get", k] for k in keys]
@@ -737,13 +739,13 @@ def small_space(nkeys):
                    + [["get", "n1", k] for k in mkeys] + [["get", "n2", keys[0]]] + adv
                    + [["inv_ns", "n1"], ["inv_ns", "n2"], ["inv_ns", "zz"], ["inv_all"]])
             out.append(("manager", {"max": mx, "ttl": ttl, "keys": mkeys}, ops))
-    for cap in (0, 1, 2, 3):
+    for cap in caps:
         for ug in (True, False):
             for up in (True, False):
                 ops = ([["put", k, v] for k in keys for v in (0, 1)] + [["get", k] for k in keys]
                        + [["getd", keys[0], 9]] + [["pop"], ["clear"]])
                 out.append(("detlru", {"cap": cap, "ug": ug, "up": up, "keys": keys}, ops))
-    for cap in (0, 1, 2, 3):
+    for cap in caps:
         for fam in ("fifoset", "ringlru"):
             out.append((fam, {"cap": cap, "keys": keys}, [["add", k] for k in keys] + [["clear"]]))
         ops = ([["add", k] for k in keys] + [["discard", k] for k in keys] + [["extend", [keys[0], keys[1]]],
@@ -801,8 +803,8 @@ def _is_disabled(family, cfg):
     return cfg.get("max", cfg.get("cap")) == 0
 
 
-def sub_exhaustive(rec, seed, shard, nshards, nkeys=3, depth=6, max_states=200000):
-    space = small_space(nkeys)
+def sub_exhaustive(rec, seed, shard, nshards, nkeys=3, depth=6, max_states=200000, deep=False):
+    space = small_space(nkeys, deep)
     closed_all = True
     tot_states = 0
     for idx, (family, cfg, ops) in enumerate(space):
@@ -1455,11 +1457,11 @@ def replay_merge(case):
 # =================================================================================================
 
 SUBCHECKS = [
-    Sub("exhaustive", sub_exhaustive, quick={"nkeys": 3, "depth": 14}, thorough={"nkeys": 4, "depth": 10, "max_states": 2000000},
+    Sub("exhaustive", sub_exhaustive, quick={"nkeys": 3, "depth": 20}, thorough={"nkeys": 4, "depth": 24, "max_states": 2000000, "deep": True},
         shards_quick=4, shards_thorough=16, exhaustive=True, replay=replay_sequence),
     Sub("machines", sub_machines, quick={"n": 10, "steps": 200}, thorough={"n": 80, "steps": 200},
         shards_quick=4, shards_thorough=16, replay=replay_sequence),
-    Sub("threads", sub_threads, quick={"rounds": 50}, thorough={"rounds": 320}, shards_quick=4, shards_thorough=16,
+    Sub("threads", sub_threads, quick={"rounds": 250}, thorough={"rounds": 1500}, shards_quick=4, shards_thorough=16,
         replay=replay_threads),
     Sub("merge", sub_merge, quick={"n": 400}, thorough={"n": 4000}, shards_quick=2, shards_thorough=8, replay=replay_merge),
 ]
